@@ -37,6 +37,7 @@ RetReason == IF ~E.same THEN "X or args were modified"
              ELSE IF E.st # "ok" THEN "raised on a valid call"
              ELSE IF \E o \in DOMAIN E.outs : E.outs[o] # Flatten(calls, 1) THEN "an output is not the in-order concatenation of the batches"
              ELSE IF Len(E.outs) # E.nout THEN "wrong number of outputs"
+             ELSE IF E.container # E.want_container THEN "a model returning a tuple / list (even of one tensor) must get a list back, a tensor a tensor"
              ELSE ""
 TraceReturn == /\ E.ev = "return" /\ RetReason = ""
                /\ IF pc = "rejected" THEN UNCHANGED vars ELSE Concat
